@@ -68,9 +68,12 @@ typedef void (*MulFn)(TorusPolynomial *, const IntPolynomial *, const TorusPolyn
 struct Mul { const char *name; MulFn fn; int acc; /*0 set, +1 add, -1 sub*/ };
 static Mul MULS[] = {{"MultNaive", torusPolynomialMultNaive, 0}, {"MultKaratsuba", torusPolynomialMultKaratsuba, 0}, {"AddMulRKaratsuba", torusPolynomialAddMulRKaratsuba, 1}, {"SubMulRKaratsuba", torusPolynomialSubMulRKaratsuba, -1}};
 
+// operands are write-protected during the call when the guard allocator is linked in: a transient write-and-restore of a const operand faults
+extern "C" { int vf_protect(const void *, int) __attribute__((weak)); }
+struct RO { const void *p[2]; RO(const void *a, const void *b) : p{a, b} { if (vf_protect) for (auto q : p) if (q) vf_protect(q, 1); } ~RO() { if (vf_protect) for (auto q : p) if (q) vf_protect(q, 0); } };
 static bool run_mul(const std::string &key, const Mul &m, int N, const IntPolynomial *a, const TorusPolynomial *b, TorusPolynomial *out, const Torus32 *prod, const char *what) {
     std::vector<Torus32> init(N); uint64_t x = 99; for (int i = 0; i < N; i++) out->coefsT[i] = init[i] = (Torus32)splitmix(x);
-    m.fn(out, a, b);
+    { RO ro(a->coefs, b->coefsT); m.fn(out, a, b); }
     for (int i = 0; i < N; i++) { uint32_t w = m.acc == 0 ? (uint32_t)prod[i] : m.acc > 0 ? (uint32_t)init[i] + (uint32_t)prod[i] : (uint32_t)init[i] - (uint32_t)prod[i];
         if ((uint32_t)out->coefsT[i] != w) { violation(key, fmt("torusPolynomial%s N=%d %s: coefficient %d is 0x%08x, exact value 0x%08x", m.name, N, what, i, (uint32_t)out->coefsT[i], w)); return false; } }
     return true;
@@ -193,11 +196,27 @@ static void aliased(int N) {
     delete_TorusPolynomial(r); delete_TorusPolynomial(q); delete_IntPolynomial(ia);
 }
 
+// sizes above every shipped parameter set: the products stay exact (4 full-vector pairs, 3 spikes; all four product routines)
+static void large(int N) {
+    TorusPolynomial *b = new_TorusPolynomial(N), *out = new_TorusPolynomial(N); IntPolynomial *a = new_IntPolynomial(N); std::vector<Torus32> prod(N);
+    for (int c = 0; c < 7; c++) {
+        std::string key = fmt("large/N=%d/content=%d", N, c);
+        if (!take(key)) continue; if (deadline()) break; current(key);
+        if (c < 4) { fill((Torus32 *)a->coefs, N, c == 0 ? 4 : c == 1 ? 2 : c == 2 ? 4 : 1, 3 + c); if (c == 2) for (int t = 0; t < N; t++) a->coefs[t] %= 1024; fill(b->coefsT, N, c == 3 ? 0 : 4, 9 + c); }
+        else { for (int t = 0; t < N; t++) { a->coefs[t] = 0; b->coefsT[t] = 0; } int i = c == 4 ? 0 : c == 5 ? N - 1 : N / 2 + 1, j = c == 4 ? N - 1 : c == 5 ? N - 1 : N / 2; a->coefs[i] = c == 6 ? INT32_MIN : 3; b->coefsT[j] = 0x12345678; }
+        ref::negacyclic_mul_fast(prod.data(), a->coefs, b->coefsT, N);
+        for (auto &m : MULS) { if (!run_mul(key, m, N, a, b, out, prod.data(), "on large polynomials")) break; eval(1); }
+        nontrivial(1); outcome(fnv(prod.data(), 64, N + c));
+    }
+    delete_TorusPolynomial(b); delete_TorusPolynomial(out); delete_IntPolynomial(a);
+}
+
 int main(int argc, char **argv) {
     init(argc, argv);
     int Nbasis = (int)opti("nbasis", quick() ? 128 : 512);
     int Nmax = (int)opti("nmax", 2048);
     for (int N = 1; N <= Nmax; N *= 2) { monomials(N); coefwise(N); aliased(N); products(N, Nbasis); }
+    for (int N : {4096, 8192}) large(N);
     sample("N=8 a=11: X^a*p, (X^a-1)*p for 7 contents (MIN, MAX, alternating, -1, seeded, e0, MIN*e_{N-1}) vs explicit index arithmetic");
     sample(fmt("N<=%d: all basis pairs (X^i, c*X^j), c in {1+j, INT32_MIN}: Naive/Karatsuba/AddMulR/SubMulR vs exact negacyclic product", Nbasis));
     sample("aliased/N=8: AddMulZ(r,q,p,r), SubMulZ(r,r,p,r), AddMulZTo(r,p,r), AddTo(r,r), MultKaratsuba(b,a,b), AddMulRKaratsuba(b,a,b), ... for 9 scalars: the result equals the value-semantics result of the operands before the call");
